@@ -1033,6 +1033,8 @@ class NumpyModel:
         if name == 'transpose':
             perm = args[0].elts if (len(args) == 1 and args[0].elts is not None) else list(args)
             return self.transpose(recv, perm).w(deps=d)
+        if name == 'swapaxes' and len(args) == 2:
+            return self.swapaxes(recv, args[0], args[1]).w(deps=d)
         if name in ('sum', 'mean', 'std', 'min', 'max', 'any', 'all', 'prod', 'var', 'argmin', 'argmax', 'cumsum'):
             return self.np_reduce(interp, st, name, [recv] + list(args), kwargs, node, axis_pos=1)
         if name == 'dot':
@@ -1047,6 +1049,28 @@ class NumpyModel:
         if name == 'item':
             return recv.only('geo', 'idx', 'mono').w(deps=d)
         return AV(ty='ndarray', deps=d)
+
+    def swapaxes(self, x, a, b):
+        if x.axes is None:
+            return x
+        n = len(x.axes)
+        if has_const(a) and has_const(b) and isinstance(cval(a), int) and isinstance(cval(b), int) and -n <= cval(a) < n and -n <= cval(b) < n:
+            ax = list(x.axes)
+            i, j = cval(a) % n, cval(b) % n
+            ax[i], ax[j] = ax[j], ax[i]
+            return x.w(axes=tuple(ax))
+        return x.w(axes=None)
+
+    def moveaxis(self, x, src, dst):
+        if x.axes is None:
+            return x
+        n = len(x.axes)
+        if has_const(src) and has_const(dst) and isinstance(cval(src), int) and isinstance(cval(dst), int) and -n <= cval(src) < n and -n <= cval(dst) < n:
+            ax = list(x.axes)
+            name = ax.pop(cval(src) % n)
+            ax.insert(cval(dst) % n, name)
+            return x.w(axes=tuple(ax))
+        return x.w(axes=None)
 
     def transpose(self, x, perm):
         out = x
